@@ -8,6 +8,7 @@ import (
 	"bytes"
 	"fmt"
 	"io"
+	"log"
 	"os"
 	"strings"
 	"sync"
@@ -52,7 +53,41 @@ func scan(opts *stack.Opts) *stack.Snapshot {
 	if s == nil || (err != nil && err != io.EOF) {
 		panic(fmt.Sprint("scan failed: ", err))
 	}
+	decorate(s)
 	return s
+}
+
+// decorate sets what GuessPaths would have found, so that every branch of the
+// HTML link helpers runs (well-formed, vendored, versioned and malformed
+// github.com / golang.org paths, the standard library).
+func decorate(s *stack.Snapshot) {
+	rels := []struct {
+		rel string
+		loc stack.Location
+		imp string
+	}{
+		{"github.com/user/file.go", stack.GOPATH, "github.com/user"},
+		{"golang.org/x/file.go", stack.GOPATH, "golang.org/x"},
+		{"github.com/u/r/p/f.go", stack.GOPATH, "github.com/u/r/p"},
+		{"github.com/u/r@v1.2.3/p/f.go", stack.GoPkg, "github.com/u/r@v1.2.3/p"},
+		{"example.com/a/vendor/github.com/p/q/f.go", stack.GOPATH, "example.com/a/vendor/github.com/p/q"},
+		{"fmt/print.go", stack.Stdlib, "fmt"},
+		{"golang.org/x/sys@v0.1.0/unix/f.go", stack.GoPkg, "golang.org/x/sys@v0.1.0/unix"},
+	}
+	k := 0
+	set := func(c *stack.Call) {
+		x := rels[k%len(rels)]
+		k++
+		c.RelSrcPath, c.Location, c.ImportPath = x.rel, x.loc, x.imp
+	}
+	for _, g := range s.Goroutines {
+		for i := range g.Stack.Calls {
+			set(&g.Stack.Calls[i])
+		}
+		for i := range g.CreatedBy.Calls {
+			set(&g.CreatedBy.Calls[i])
+		}
+	}
 }
 
 func render(s *stack.Snapshot, lvl stack.Similarity) string {
@@ -84,6 +119,7 @@ func render(s *stack.Snapshot, lvl stack.Similarity) string {
 }
 
 func main() {
+	log.SetOutput(io.Discard) // the library logs "problematic URL" lines
 	dur := 3 * time.Second
 	if len(os.Args) > 1 {
 		if d, err := time.ParseDuration(os.Args[1]); err == nil {
